@@ -75,6 +75,10 @@ def rec_c18(rng, workdir: Path, meta=None) -> dict:
             gd[n] = LabelMergeGroup([lab]) if rng.random() < 0.2 else LabelGroup([lab], single_instance=False)
         groups = SegmentationClassGroups(gd)
     subjects = rng.sample(SUBJECT_NAMES, rng.randint(1, 4))
+    if rng.random() < 0.2:
+        # names that are prefixes / suffixes / substrings of one another, the longest first
+        subjects = rng.choice([["patient_12", "patient_1", "12", "t_1"], ["Case-A (left)", "left", "Case-A", "(left)"], ["s10", "s1", "0", "1", "s"]])
+        subjects = subjects[: rng.randint(2, len(subjects))]
     rec = {"groups": [], "metrics": [], "header": [], "first": [], "subjects": [chars(s) for s in subjects], "reported": [], "lines": [], "celltext": [],
            "fsubjects": [], "loaded": [], "lgroups": [], "lmetrics": [], "out": "ok",
            "meta": {"gen": "random", "group_names": names if use_groups else ["ungrouped"], "subject_names": subjects, "cfg": {k: v for k, v in cfg.items() if k != "h"}}}
